@@ -68,18 +68,33 @@ type Contract struct {
 	Assumes  []Clause
 	NoBody   bool // contract is assumed, body not verified (trusted)
 	Reads    []string
+	ObjInv   []Clause
+	invIdx   []int
+}
+
+type Pred struct {
+	Name   string
+	Params []QVar
+	Body   *Expr
+	Pkg    string
+	File   string
+	Line   int
 }
 
 type ContractSet struct {
+	Preds map[string]*Pred
 	ByKey map[string]*Contract
 	All   []*Contract
+	ModSets     map[string][]string
+	predClauses []*Clause
+	predOf      []*Pred
 	Pure  []string // patterns of pure (UF) functions
 	Skip  []string // patterns of effect-free skipped functions (A-LOG)
 	Files []string
 }
 
 func loadContracts(dirs []string, pkgPathOf func(dir string) string) (*ContractSet, error) {
-	cs := &ContractSet{ByKey: map[string]*Contract{}}
+	cs := &ContractSet{ByKey: map[string]*Contract{}, Preds: map[string]*Pred{}}
 	for _, d := range dirs {
 		files, _ := filepath.Glob(filepath.Join(d, "*contracts_verif.go"))
 		more, _ := filepath.Glob(filepath.Join(d, "*.spec"))
@@ -89,6 +104,32 @@ func loadContracts(dirs []string, pkgPathOf func(dir string) string) (*ContractS
 				return nil, err
 			}
 			cs.Files = append(cs.Files, f)
+		}
+	}
+	for i, c := range cs.predClauses {
+		cs.predOf[i].Body = c.E
+	}
+	for _, c := range cs.All {
+		var mods []string
+		for _, m := range c.Modifies {
+			if strings.HasPrefix(m, "@") {
+				set, ok := cs.ModSets[m[1:]]
+				if !ok {
+					return nil, fmt.Errorf("%s:%d: unknown modset %s", c.File, c.Line, m)
+				}
+				mods = append(mods, set...)
+			} else {
+				mods = append(mods, m)
+			}
+		}
+		c.Modifies = mods
+		for _, i := range c.invIdx {
+			cl := c.Requires[i]
+			if cl.Label == "" {
+				cl.Label = "inv"
+			}
+			c.Requires[i].Label = cl.Label
+			c.Ensures = append(c.Ensures, cl)
 		}
 	}
 	return cs, nil
@@ -153,6 +194,45 @@ func (cs *ContractSet) parseFile(file, pkg string) error {
 			cs.ByKey[cur.Key] = cur
 			cs.All = append(cs.All, cur)
 			curLoop = nil
+		case "pred":
+			// pred Name(a T, b *pkg.U) = expr   (a macro, expanded at each use; expr may continue on `|` lines)
+			eqi := strings.Index(rest, "=")
+			lp, rp := strings.Index(rest, "("), strings.Index(rest, ")")
+			if eqi < 0 || lp < 0 || rp < lp || rp > eqi {
+				return fmt.Errorf("%s:%d: malformed pred", file, ln+1)
+			}
+			pr := &Pred{Name: strings.TrimSpace(rest[:lp]), Pkg: pkg, File: file, Line: ln + 1}
+			for _, ps := range strings.Split(rest[lp+1:rp], ",") {
+				fs := strings.Fields(ps)
+				if len(fs) == 2 {
+					pr.Params = append(pr.Params, QVar{fs[0], fs[1]})
+				} else if len(fs) == 1 {
+					pr.Params = append(pr.Params, QVar{fs[0], "int"})
+				}
+			}
+			cs.Preds[pr.Name] = pr
+			cur = nil
+			predClause := &Clause{Line: ln + 1, File: file}
+			cs.predClauses = append(cs.predClauses, predClause)
+			cs.predOf = append(cs.predOf, pr)
+			lastClause = predClause
+			body := strings.TrimSpace(rest[eqi+1:])
+			lastSrc = &body
+		case "modset":
+			// modset NAME = cell, cell, ...   (named list usable as `modifies @NAME`)
+			if eqi := strings.Index(rest, "="); eqi > 0 {
+				name := strings.TrimSpace(rest[:eqi])
+				var items []string
+				for _, m := range strings.Split(rest[eqi+1:], ",") {
+					if m = strings.TrimSpace(m); m != "" {
+						items = append(items, m)
+					}
+				}
+				if cs.ModSets == nil {
+					cs.ModSets = map[string][]string{}
+				}
+				cs.ModSets[name] = items
+			}
 		case "purefuncs":
 			cs.Pure = append(cs.Pure, strings.Fields(rest)...)
 		case "skipfuncs":
@@ -194,6 +274,16 @@ func (cs *ContractSet) parseFile(file, pkg string) error {
 			case "requires":
 				curLoop = nil
 				newClause(&cur.Requires)
+			case "inv":
+				// invariant carried by the function: required at entry and ensured at exit (same clause, both sides)
+				curLoop = nil
+				newClause(&cur.Requires)
+				cur.invIdx = append(cur.invIdx, len(cur.Requires)-1)
+			case "objinv":
+				// object invariant of the receiver's type: assumed at entry, proved at exit, assumed after calls;
+				// not an obligation at call sites (only the type's own methods write the fields it mentions)
+				curLoop = nil
+				newClause(&cur.ObjInv)
 			case "ensures":
 				curLoop = nil
 				newClause(&cur.Ensures)
@@ -469,7 +559,7 @@ func (l *lexer) binary(level int) (*Expr, error) {
 }
 
 func (l *lexer) unary() (*Expr, error) {
-	if t := l.peek(); t == "!" || t == "-" {
+	if t := l.peek(); t == "!" || t == "-" || t == "*" {
 		l.next()
 		a, err := l.unary()
 		if err != nil {
